@@ -177,6 +177,12 @@ pub struct RegScenario {
     /// the replay-of-a-prefix check cuts the owner history here
     pub prefix_at: u32,
     pub chain: Vec<ChainStep>,
+    /// fault-injecting configuration: logical nodes whose `type_info()`
+    /// unwinds once, the first time the registry evaluates it; the harness
+    /// catches the unwind and the history goes on (crash and retry inside a
+    /// registration).  Empty in the fault-free configuration.
+    #[serde(default)]
+    pub unwind_nodes: Vec<u8>,
 }
 
 // ---------------------------------------------------------------------------
@@ -559,5 +565,11 @@ pub fn generate(rng: &mut Rng) -> RegScenario {
             _ => ChainStep::BuilderRebuild,
         })
         .collect();
-    RegScenario { cfg: c, perm, nodes, owner, replica, prefix_at, chain }
+    // 15% of the runs are the fault-injecting configuration (used by C11 only)
+    let unwind_nodes: Vec<u8> = if rng.permille(150) {
+        (0..rng.range(1, 3)).map(|_| rng.below(c.active.max(1) as u64) as u8).collect()
+    } else {
+        vec![]
+    };
+    RegScenario { cfg: c, perm, nodes, owner, replica, prefix_at, chain, unwind_nodes }
 }
